@@ -27,4 +27,4 @@ def run(ctx):
                                     str(ctx.seed + i), "--keyspace", str(ksp), "--queries", "10"], part + ".in", part, cnt)
         with open(tp, "a") as out:
             out.write(open(part).read())
-    ctx.validate("RBTree", "RBTreeTrace", "RBTreeTrace.cfg", tp, "iv random", keyfn=key_for("C07"))
+    ctx.validate("RBTree", "RBTreeTrace", "RBTreeTrace.cfg", tp, "iv random", keyfn=key_for("C07"), env={"OWN": ctx.pid})
